@@ -334,6 +334,17 @@ class Result:
     def violation(self, what, replay):
         self.violations.append((what, replay))
 
+    def downgrade(self, what, evaluations, distinct, rule):
+        """DRIFT: the implementation is not the one the model describes although the property's own
+        oracle holds on everything recorded; the exhaustive model result does not transfer"""
+        if self.violations:
+            return
+        print("DRIFT property=%s %s (the property's own oracle holds on everything recorded)" % (self.prop, what))
+        self.level = "exploration"
+        self.cov["evaluations"] = evaluations
+        self.cov["distinct_nontrivial"] = distinct
+        self.cov["rule"] = rule
+
     def finish(self):
         os.makedirs(os.path.join(VERIF, "evidence"), exist_ok=True)
         os.makedirs(os.path.join(VERIF, "replays"), exist_ok=True)
